@@ -84,3 +84,6 @@ func verifMakeReader(f *readFile) (*bufio.Reader, *os.File, error) {
 	}
 	return bufio.NewReader(VerifDefault), nil, nil
 }
+
+// VerifReadFile names the unexported reader type for replacement stubs in other packages.
+type VerifReadFile = readFile
